@@ -393,6 +393,11 @@ struct Global {
     /// fds the simulator "issued" (fake descriptors): close(2) on them is recorded, not executed.
     pub fake_fds: Vec<i32>,
     pub closes: Vec<i32>,
+    /// Fault injection: this many of the next close(2) calls on descriptors the simulator knows are
+    /// interrupted by a signal: the descriptor IS closed (Linux releases the number before it can
+    /// report EINTR) and the call fails with EINTR. Calling close again on that number closes
+    /// whatever got it in between.
+    pub close_eintr: u32,
     /// Called when a blocking wait has nothing to return; see `set_block_handler`.
     block: Option<Box<dyn FnMut(i32) -> BlockAction + Send>>,
     pub last_errno_setup: Vec<Ev>,
@@ -418,6 +423,7 @@ fn global() -> MutexGuard<'static, Global> {
             pending: SetupConfig::default(),
             fake_fds: Vec::new(),
             closes: Vec::new(),
+            close_eintr: 0,
             block: None,
             last_errno_setup: Vec::new(),
         })
@@ -481,6 +487,7 @@ pub fn reset() {
     }
     g.fake_fds.clear();
     g.closes.clear();
+    g.close_eintr = 0;
     g.pending = SetupConfig::default();
     g.last_errno_setup.clear();
 }
@@ -491,6 +498,11 @@ pub fn take_setup_log() -> Vec<Ev> {
 
 pub fn add_fake_fd(fd: i32) {
     global().fake_fds.push(fd);
+}
+
+/// See `Global::close_eintr`.
+pub fn set_close_eintr(n: u32) {
+    global().close_eintr = n;
 }
 
 pub fn take_closes() -> Vec<i32> {
@@ -1223,11 +1235,19 @@ unsafe fn hook_close(fd: c_int) -> Option<c_int> {
     let mut g = global();
     if g.fake_fds.contains(&fd) {
         g.closes.push(fd);
+        if g.close_eintr > 0 {
+            g.close_eintr -= 1;
+            return err(libc::EINTR);
+        }
         return Some(0);
     }
     match close_real_fd(fd) {
         Some(true) => {
             g.closes.push(fd);
+            if g.close_eintr > 0 {
+                g.close_eintr -= 1;
+                return err(libc::EINTR);
+            }
             Some(0)
         }
         Some(false) => {
